@@ -76,7 +76,10 @@ def corruption_class(spec):
     if tag in DICT_TAGS:
         items = spec[1] if tag not in ("defaultdict", "mydefaultdict") else spec[2]
         keys = [k for k, _ in items]
-        texts = [json_key_text(k) for k in keys]
+        # the texts json stores the KEPT keys under (dict_get_state skips property values before it looks at the key; a key
+        # json refuses has no text).  Since the repair of D08 two equal texts make the dump raise: a dict of this class that
+        # comes back different means the refusal is gone
+        texts = [t for t in (json_key_text(k) for k, v in items if v[0] != "property") if t is not None]
         if len(set(texts)) != len(texts):
             return "dict-colliding-keys"
         if any(k[0] == "bool" for k in keys):
@@ -109,7 +112,7 @@ def differs(rec):
 # fixed witnesses of the open findings, replayed on every run
 WITNESSES = [
     ["dict", [[["bool", False], ["str", "x"]], [["bool", True], ["str", "y"]]]],                         # D07
-    ["dict", [[["int", 1], ["str", "a"]], [["str", "1"], ["str", "b"]]]],                                # D08
+    ["dict", [[["int", 1], ["str", "a"]], [["str", "1"], ["str", "b"]]]],                                # D08 (repaired: dumps raises ValueError)
     ["frozenset", [["int", 1]]],                                                                         # D09
     ["deque", [["int", 1], ["int", 2]]],                                                                 # D09
     ["objarray", [2, 2], [["list", [["int", 1], ["int", 2]]], ["list", [["int", 3], ["int", 4]]],
@@ -123,6 +126,22 @@ WITNESSES = [
     ["dict", [[["int", 1], ["property"]], [["str", "b"], ["int", 2]]]],                                  # D26 with misaligned key types: load raises
     ["dict", [[["none"], ["int", 1]]]],                                                                  # None key: load raises (a refusal)
     ["objarray", [], [["int", 3]]],                                                                      # rank-0: load raises
+    # D08 (repaired), the other shapes of two keys with one JSON spelling: all refused by dumps with ValueError ...
+    ["dict", [[["str", "1"], ["str", "a"]], [["int", 1], ["str", "b"]]]],
+    ["odict", [[["float", "0x1.8p+0"], ["str", "a"]], [["str", "1.5"], ["str", "b"]]]],
+    ["dict", [[["bool", True], ["str", "a"]], [["str", "true"], ["str", "b"]]]],
+    ["dict", [[["none"], ["int", 1]], [["str", "null"], ["int", 2]]]],
+    ["dict", [[["npscalar", "<i8", 1], ["str", "a"]], [["str", "1"], ["str", "b"]]]],                    # np.int64(1).item() == 1
+    ["dict", [[["float", "nan"], ["str", "a"]], [["float", "nan"], ["str", "b"]]]],                      # two NaN objects are two keys, one text
+    ["defaultdict", "list", [[["int", 1], ["str", "a"]], [["str", "1"], ["str", "b"]]]],
+    ["list", [["int", 7], ["dict", [[["str", "k"], ["bytes", "78"]], [["int", 1], ["str", "a"]], [["str", "z"], ["int", 3]], [["str", "1"], ["str", "b"]]]]]],
+    # ... in the order of the code: an earlier value's own exception wins, a later value is not reached, a key json refuses
+    # (TypeError only in _save) does not hide the collision, and a property value is skipped BEFORE its key is looked at
+    # (one kept key: no collision; the D26 behaviour)
+    ["dict", [[["int", 1], ["list", [["property"]]]], [["str", "1"], ["str", "b"]]]],                     # TypeError (cannot pickle 'property')
+    ["dict", [[["int", 1], ["str", "a"]], [["str", "1"], ["list", [["property"]]]]]],                     # ValueError
+    ["dict", [[["tuple", [["int", 1]]], ["int", 0]], [["int", 1], ["str", "a"]], [["str", "1"], ["str", "b"]]]],
+    ["dict", [[["str", "1"], ["property"]], [["str", "b"], ["int", 2]], [["int", 1], ["int", 3]]]],
     # state that is falsy but not None must still go through __setstate__ (faithful on the unchanged tree)
     ["userobj", "FalsyState", [["flag", ["bool", False]]]], ["userobj", "FalsyState", [["flag", ["int", 0]]]],
     ["list", [["userobj", "FalsyState", [["flag", ["tuple", []]]]], ["userobj", "FalsyState", [["flag", ["dict", []]]]], ["userobj", "FalsyState", [["flag", ["int", 3]]]]]],
